@@ -632,6 +632,11 @@ func eventMiddleware(c evCase, chain string, r *vx.Report) {
 					if sym == 'r' {
 						return fmt.Errorf("rejected by m%d", i)
 					}
+					if sym == 'p' {
+						// rejects by panicking (a failed type assertion on an argument does the same): the library
+						// recovers a panicking middleware and treats it as a rejection
+						panic(fmt.Errorf("rejected by m%d", i))
+					}
 					return nil
 				})
 			}
@@ -645,7 +650,7 @@ func eventMiddleware(c evCase, chain string, r *vx.Report) {
 		f.In(c.frame)
 		vrig.Settle(time.Second)
 
-		first := strings.IndexByte(chain, 'r')
+		first := strings.IndexAny(chain, "rp")
 		nm := len(chain)
 		if first >= 0 {
 			nm = first + 1
@@ -917,7 +922,7 @@ func main() {
 			r.Extra["admission_chains"] = len(cs)
 			n := 0
 			for _, c := range evCases() {
-				for _, chain := range []string{"", "a", "r", "aa", "ar", "ra"} {
+				for _, chain := range []string{"", "a", "r", "aa", "ar", "ra", "p", "ap", "pa"} {
 					eventMiddleware(c, chain, r)
 					n++
 					if chain != "" {
